@@ -130,3 +130,18 @@ Fixpoint count_ev (p : iev -> bool) (l : list iev) : nat :=
 Definition is_enter (t : nat) (e : iev) : bool := match e with EvEnter u => Nat.eqb u t | _ => false end.
 Definition is_reject (t : nat) (e : iev) : bool := match e with EvReject u => Nat.eqb u t | _ => false end.
 Definition is_return (t : nat) (e : iev) : bool := match e with EvReturn u _ => Nat.eqb u t | _ => false end.
+
+(* ---- entry point for the correspondence check: replay an observed history; returns the number
+   of labels accepted and the final state (None = the label at that index is not enabled) ---- *)
+Fixpoint irun_count (c : iso_cfg) (s : istate) (tr : list ilabel) (n : nat) : nat * option istate :=
+  match tr with
+  | [] => (n, Some s)
+  | a :: tr' => match istep c s a with Some s' => irun_count c s' tr' (S n) | None => (n, None) end
+  end.
+
+Definition replay_verdict (tr : list ilabel) (threads : list nat) : nat * bool * bool * bool :=
+  match irun_count go_cfg iinit tr 0 with
+  | (n, Some s) => (n, true, negb (i_flag s),
+                    forallb (fun t => match i_pc s t with Idle => true | _ => false end) threads)
+  | (n, None) => (n, false, false, false)
+  end.
